@@ -520,6 +520,23 @@ pub fn predicate(name: &str, v: &Violation) -> bool {
     "cycle_or_self_application" => unguarded_rule_cycle(&schema) || generic_self_application(&schema),
     "uri_prelude_panic_in_uriparse" => schema.contains("uri") && v.detail.contains("uriparse-"),
     "abnf_control" => schema.contains(".abnf"),
+    "abnf_huge_repetition" => schema.contains(".abnf") && {
+      // a repetition count of four or more digits inside the schema text
+      let b = schema.as_bytes();
+      let mut run = 0;
+      let mut found = false;
+      for c in b {
+        if c.is_ascii_digit() {
+          run += 1;
+          if run >= 4 {
+            found = true;
+          }
+        } else {
+          run = 0;
+        }
+      }
+      found
+    },
     "leftover_entry_state_debug_assert" => v.detail.contains("assertion failed: self.object_value.is_none()") || v.detail.contains("assertion failed: self.map_entry_candidates.is_none()"),
     "time_prelude" => schema.contains("time"),
     "always" => true,
@@ -534,13 +551,14 @@ pub fn pre_key(v: &Violation) -> String {
   let schema = schema_of(v);
   let sig = if v.class == "panic" { v.signature.splitn(2, ':').nth(1).unwrap_or("").to_string() } else { String::new() };
   format!(
-    "{}|{}|cyc={} gen={} abnf={} uri={}",
+    "{}|{}|cyc={} gen={} abnf={} uri={} abnfrep={}",
     v.class,
     sig,
     unguarded_rule_cycle(&schema) as u8,
     generic_reentrancy(&schema) as u8,
     schema.contains(".abnf") as u8,
-    (schema.contains("uri") && v.detail.contains("uriparse-")) as u8
+    (schema.contains("uri") && v.detail.contains("uriparse-")) as u8,
+    predicate("abnf_huge_repetition", v) as u8
   )
 }
 
